@@ -51,6 +51,8 @@ def parseOp (tok : String) : Option Op :=
   | ["thr", n, s] => do pure (.setThr (← n.toNat?) (← s.toNat?))
   | ["st", sev, tag, named, items] => do
     let tg ← if tag = "~" then some none else (unhex tag).map some
+    -- a leading `u`: the statement is executed from a destructor during stack unwinding — the same statement
+    let named := if named.startsWith "u" then (named.drop 1).toString else named
     let nm ← if named = "e" then some none else ((named.drop 1).toString.toNat?).map some
     let its ← parseItems items
     pure (.stmt (← sev.toNat?) tg its nm)
